@@ -18,6 +18,10 @@ Init == /\ ci \in 1..Len(Cases)
 Next == LNext /\ UNCHANGED ci
 Spec == Init /\ [][Next]_vars
 
-Report == (phase = "done" /\ asm # Cases[ci].lines) =>
-             PrintT(<<"DIVERGED", ci, Cases[ci].id, "model", asm, "real", Cases[ci].lines>>)
+(* what the harness's lexical reader sees of a line *)
+Seen(ln) == IF ln.k = "label" THEN [k |-> "label", name |-> ln.name, g |-> ln.g] ELSE [k |-> "ins", toks |-> ln.toks]
+SeenAsm == [j \in 1..Len(asm) |-> Seen(asm[j])]
+
+Report == (phase = "done" /\ SeenAsm # Cases[ci].lines) =>
+             PrintT(<<"DIVERGED", ci, Cases[ci].id, "model", SeenAsm, "real", Cases[ci].lines>>)
 =============================================================================
